@@ -204,11 +204,12 @@ const (
 	FamLong
 	FamSingle
 	FamNumeric
+	FamVeryLong
 	NumFamilies
 )
 
 func FamilyName(f int) string {
-	return [...]string{"ascii", "mixed", "hexprefix", "legacy", "long", "single", "numeric"}[f]
+	return [...]string{"ascii", "mixed", "hexprefix", "legacy", "long", "single", "numeric", "verylong"}[f]
 }
 
 // Names returns n distinct non-empty names of the given family.
@@ -258,6 +259,18 @@ func Names(r *rand.Rand, fam, n int) []string {
 			default:
 				s = fmt.Sprint(r.Int63())
 			}
+		case FamVeryLong:
+			// longer than any filesystem allows: 256, 257, 300, 1000, 4096 bytes, sharing long prefixes
+			l := []int{256, 257, 300, 1000, 4096, 255}[i%6]
+			b := make([]byte, l)
+			for j := range b {
+				b[j] = 'v'
+			}
+			copy(b[l-12:], fmt.Sprintf("%012d", i))
+			if r.Intn(2) == 0 {
+				copy(b, fmt.Sprintf("%08x", r.Uint32()))
+			}
+			s = string(b)
 		case FamSingle:
 			s = string(alphabet[i%len(alphabet)])
 			if i >= len(alphabet) {
